@@ -329,8 +329,7 @@ def has_indented_placeable_line(x):
 
 
 def classify(case, why, out=''):
-    if has_indented_placeable_line(sexp.loads(case)[2]):
-        return 'D25' 
+
     # D7: a comment whose last line is empty, rendered as the last line of the input without a line end
     text = sexp.loads(case)[1]
     if text.split(b'\n')[-1] in (b'#', b'##', b'###'):
